@@ -64,7 +64,8 @@ V_CONTRACT int v_attr_setdetachstate(pthread_attr_t *a, int d) V_REQUIRES(a != N
 /* thread creation: the k-th attempt of this call fails iff k == g_fail_at */
 V_CONTRACT
 int v_thread_create(pthread_t *t, const pthread_attr_t *a, void *(*f)(void *), void *arg)
-V_REQUIRES(t != NULL && V_RW_OK(t, sizeof(pthread_t)) && a != NULL)
+V_REQUIRES(t != NULL)                                                                                      /*@C04.no-thread-created-on-a-missing-slot*/
+V_REQUIRES(V_RW_OK(t, sizeof(pthread_t)) && a != NULL)
 V_REQUIRES(f == thpool_thread && arg == (void *)g_pool)                                                   /*@C06.every-worker-runs-the-pool-loop-of-this-pool*/
 V_ASSIGNS(*t, g.create_calls)
 V_ENSURES(g.create_calls == V_OLD(g.create_calls) + 1 && V_RET == ((V_OLD(g.create_calls) - g_c0 == g_fail_at) ? g_create_err : 0))
@@ -75,17 +76,21 @@ V_REQUIRES(l == g_threads && data != NULL)
 V_ASSIGNS(g_threads->len, g.linsert_calls)
 V_ENSURES(V_RET == 0 && g_threads->len == V_OLD(g_threads->len) + 1 && g.linsert_calls == V_OLD(g.linsert_calls) + 1)
 ;
-#define V_SPAWNED(num)  ((size_t)(num) <= g_fail_at ? (size_t)(num) : g_fail_at)          /* threads that come to life: all of them, or those before the failing attempt */
+#define V_MIN2(a, b)    ((a) < (b) ? (a) : (b))
+#define V_FIRSTFAIL     V_MIN2(g_fail_at, g_oom_at)                                       /* first attempt that fails: no slot for it (g_oom_at), or its creation is refused (g_fail_at) */
+#define V_SPAWNED(num)  V_MIN2((size_t)(num), V_FIRSTFAIL)                                /* threads that come to life: all of them, or those before the failing attempt */
+#define V_OOMF(num)     ((size_t)(num) > g_oom_at && g_oom_at <= g_fail_at)               /* the call ends on a missing slot */
+#define V_CRF(num)      ((size_t)(num) > g_fail_at && g_fail_at < g_oom_at)               /* the call ends on a refused creation */
 V_CONTRACT
 static int add_threads(m_thpool_t *pool, int num)
 V_REQUIRES(pool == g_pool && V_POOL_OK && num >= 0 && num <= 255 && g_threads->len + (size_t)num < 256 && g_create_err > 0 && g_create_err < 200
            && g_c0 == g.create_calls && g_l0 == g_threads->len && g_fc0 == g_free_calls && g_ac0 == g_alloc_calls && g_oom_mask == 0)
 V_ASSIGNS(g_thslot, g.create_calls, g.linsert_calls, g.detach_calls, g_threads->len, g_alloc_calls, g_last_alloc, g_free_calls, g_free_arg, g_free_arg0)
-/* every thread that was created is recorded in the pool's thread list exactly once (so that free can wait for it); creation stops at the first failure, which leaves no record
- * and gives its slot back; the result is that failure's code, or 0 */
-V_ENSURES(V_RET == ((size_t)num > g_fail_at ? g_create_err : 0) && g_threads->len == g_l0 + V_SPAWNED(num) && g.linsert_calls == V_OLD(g.linsert_calls) + V_SPAWNED(num)
-          && g.create_calls == g_c0 + V_SPAWNED(num) + ((size_t)num > g_fail_at ? 1 : 0))                                                     /*@C06.every-created-worker-is-recorded-exactly-once*/
-V_ENSURES(g_alloc_calls - g_ac0 == g.create_calls - g_c0 && g_free_calls - g_fc0 == ((size_t)num > g_fail_at ? 1 : 0))                        /*@C04.thread-slot-released-iff-its-creation-failed*/
+/* every thread that was created is recorded in the pool's thread list exactly once (so that free can wait for it); creation stops at the first failure -- a missing slot (ENOMEM, no thread
+ * is created on it) or a refused creation (its code; the slot is given back) -- which leaves no record; otherwise the result is 0 */
+V_ENSURES(V_RET == (V_OOMF(num) ? ENOMEM : V_CRF(num) ? g_create_err : 0) && g_threads->len == g_l0 + V_SPAWNED(num) && g.linsert_calls == V_OLD(g.linsert_calls) + V_SPAWNED(num)
+          && g.create_calls == g_c0 + V_SPAWNED(num) + (V_CRF(num) ? 1 : 0))                                                                  /*@C06.every-created-worker-is-recorded-exactly-once*/
+V_ENSURES(g_alloc_calls - g_ac0 == V_SPAWNED(num) + ((V_CRF(num) || V_OOMF(num)) ? 1 : 0) && g_free_calls - g_fc0 == (V_CRF(num) ? 1 : 0))     /*@C04.thread-slot-released-iff-its-creation-failed*/
 V_ENSURES(g.detach_calls == V_OLD(g.detach_calls) + ((g_pool->flags & M_THPOOL_DETACHED) ? 1 : 0))
 ;
 #endif
@@ -104,6 +109,9 @@ V_ENSURES(V_IMP(V_RET != 0, g.enq_calls == V_OLD(g.enq_calls)))                 
 /* lazy pools never go beyond the configured number of threads */
 V_ENSURES(V_IMP(g.addthr_calls > V_OLD(g.addthr_calls), (g_pool->flags & M_THPOOL_LAZY) && g.addthr_num == 1 && g.addthr_calls == V_OLD(g.addthr_calls) + 1))
 V_ENSURES(V_IMP(g.addthr_calls > V_OLD(g.addthr_calls) && g_addthr_ret == 0, g_threads->len <= g_pool->max_threads))                         /*@C06.never-more-threads-than-configured*/
+/* a lazy pool that had to spawn a worker for this task and could not (whatever the error code) refuses the task: otherwise a task could be accepted by a pool without any worker,
+ * never run, and a wait-all free would return before it has run */
+V_ENSURES(V_IMP(g.addthr_calls > V_OLD(g.addthr_calls) && g_addthr_ret != 0, V_RET == g_addthr_ret && g.enq_calls == V_OLD(g.enq_calls)))     /*@C06.task-refused-when-its-worker-cannot-be-spawned*/
 ;
 #endif
 
